@@ -393,6 +393,10 @@ package modeling
 //@   requires 0 <= t.startingIndex + 1 && t.startingIndex + 1 < len(t.mesh.indices)
 //@   requires 0 <= t.mesh.indices[t.startingIndex + 1] && t.mesh.indices[t.startingIndex + 1] < len(t.mesh.v3Data[attr])
 //@ func Tri.Area3D pure
+//@   requires 0 <= t.startingIndex && t.startingIndex + 2 < len(t.mesh.indices)
+//@   requires 0 <= t.mesh.indices[t.startingIndex] && t.mesh.indices[t.startingIndex] < len(t.mesh.v3Data[attr])
+//@   requires 0 <= t.mesh.indices[t.startingIndex + 1] && t.mesh.indices[t.startingIndex + 1] < len(t.mesh.v3Data[attr])
+//@   requires 0 <= t.mesh.indices[t.startingIndex + 2] && t.mesh.indices[t.startingIndex + 2] < len(t.mesh.v3Data[attr])
 //@ func Tri.P3Vec3Attr pure
 //@   requires 0 <= t.startingIndex + 2 && t.startingIndex + 2 < len(t.mesh.indices)
 //@   requires 0 <= t.mesh.indices[t.startingIndex + 2] && t.mesh.indices[t.startingIndex + 2] < len(t.mesh.v3Data[attr])
